@@ -12,6 +12,19 @@ import numpy as np
 
 RESERVED = ("time", "y", "x")
 K = "pipeline.charge_collection.m.arguments."
+GROUPS = ("photon_collection", "charge_collection", "charge_measurement")
+
+
+def decode_trace(x):
+    """trace column -> idents of the instances that executed, in execution order (None = not a trace)"""
+    import verif_probes_c07 as vp
+
+    if np.isnan(x) or x < 0 or x != int(x):
+        return None
+    d = vp.decode(int(x))
+    if d is None or any(isinstance(e, list) for e in d):
+        return None
+    return list(reversed(d))
 
 
 def _jl(v):
@@ -25,7 +38,7 @@ def _jl(v):
     return int(round(float(v)))
 
 
-def dump(dt, names, kind, prefer_order=True):
+def dump(dt, names, kind, prefer_order=True, trace=False):
     """-> (shape, cells) ; cell = dict(label=[...], data=[...]|None, mem=int)"""
     import verif_probes_c07 as vp
 
@@ -57,14 +70,18 @@ def dump(dt, names, kind, prefer_order=True):
             label = [-97] + label[1:]
         if kind == "encs":
             # one column per parameter: column k = code of the value parameter k's model instance received
-            if arr.size != len(names) or np.isnan(arr).any() or np.isnan(sig).any():
+            if arr.size != len(names) + (1 if trace else 0) or np.isnan(arr).any() or np.isnan(sig).any():
                 data, mem = None, -1
             else:
                 data = []
-                for x in arr:
+                for x in arr[:len(names)]:
                     dec = vp.decode(int(x))
                     data.append(dec[0] if dec is not None and len(dec) == 1 else -88)
                 mem = int(sig.sum())
+                if trace:
+                    # the data of an entry ends with the instances that executed in the run that produced it
+                    tr = decode_trace(arr[len(names)])
+                    data.append(tr if tr is not None else [-88])
                 if aux_bad:
                     data, mem = None, -2
             cells.append(dict(label=label, data=data, mem=mem))
@@ -123,12 +140,21 @@ def build(case, with_dask, out_dir=None):
             args[f"p{k}"] = [float(x) for x in d] if isinstance(d, list) else float(d)
         func = "verif_probes_c07.enc"
     if case["kind"] == "encs":
-        det = pyx.make_detector(rows=1, cols=n)
-        models = []
-        for j in sorted({j for j, _ in case["layout"]}):
+        # `pipe` (optional): every probe instance of the pipeline in execution order, [ident, enabled, group]; the
+        # instances that own parameter slots are switched on and live in charge_collection (their keys say so); the
+        # others are decoys: switched off (they must never execute) or on (order of execution).  With `pipe` the
+        # detector has one more column: the execution trace
+        plan = case.get("pipe")
+        det = pyx.make_detector(rows=1, cols=n + (1 if plan else 0))
+        if plan is None:
+            plan = [[j, True, 1] for j in sorted({j for j, _ in case["layout"]})]
+        groups = {}
+        for j, enabled, grp in plan:
             margs = dict(ident=j, slots=",".join(f"{arg}:{k}" for k, (jj, arg) in enumerate(case["layout"]) if jj == j),
                          sleep_scale=case.get("sleep_scale", 0.0), sleep_mult=case.get("sleep_mult", 1),
                          slow_sum=case.get("slow_sum"))
+            if case.get("pipe"):
+                margs["trace"] = n
             for k, (jj, arg) in enumerate(case["layout"]):
                 if jj == j:
                     d = (case.get("defaults") or [0] * n)[k]
@@ -136,8 +162,9 @@ def build(case, with_dask, out_dir=None):
                         det.environment.temperature = float(d)
                     else:
                         margs[arg] = [float(x) for x in d] if isinstance(d, list) else float(d)
-            models.append(dict(func="verif_probes_c07.encs", name=f"m{j}", arguments=margs))
-        pipe = pyx.make_pipeline({"charge_collection": models})
+            groups.setdefault(GROUPS[grp], []).append(dict(func="verif_probes_c07.encs", name=f"m{j}", arguments=margs,
+                                                           enabled=bool(enabled)))
+        pipe = pyx.make_pipeline({g: groups[g] for g in GROUPS if g in groups})
     else:
         pipe = pyx.make_pipeline({"charge_collection": [dict(func=func, name="m", arguments=args)]})
     keys = keys_of(case)
@@ -188,47 +215,88 @@ def run_one(case, with_dask, sched=None, out_dir=None):
     vp.reset()
     names = names_of(case)
     res = {}
+    trace = bool(case.get("pipe")) and case["kind"] == "encs"
+    pool = None
     try:
         det, pipe, obs = build(case, with_dask, out_dir)
-        cfg = {}
-        if sched:
-            cfg["scheduler"] = sched["scheduler"]
-            if sched.get("workers"):
-                cfg["num_workers"] = sched["workers"]
+        cfg, pool = sched_config(sched)
+        if sched and sched.get("pre"):
+            # the caller's objects went through pickle before the observation is run on them
+            mod = __import__(sched["pre"])
+            det, pipe = mod.loads(mod.dumps((det, pipe)))
         before = state_hash()
         snap0 = snapshot(det, pipe)
         with dask.config.set(**cfg):
             dt = pyxel.run_mode(mode=obs, detector=det, pipeline=pipe, with_inherited_coords=True)
-            shape, cells = dump(dt, names, case["kind"])
+            shape, cells = dump(dt, names, case["kind"], trace=trace)
         if case["kind"] in ("enc", "encs") and cells and snapshot(det, pipe) != snap0:
             # the runs must work on copies: the caller's detector / pipeline keep the settings they had
             cells[0]["mem"] += 1000
         res = dict(shape=shape, cells=cells, leak=int(state_hash() != before))
-        if case["kind"] in ("enc", "encs") and with_dask and cells and (sched or {}).get("scheduler") != "processes":
+        if case["kind"] in ("enc", "encs") and with_dask and cells and in_process(sched):
             # every cell is computed exactly once (+ the one metadata run): surplus executions are added to the trace
-            # counter of the first cell (the model expects 0)
+            # counter of the first cell (the model expects 0).  Only the models that are switched on execute.
             nmod = len({j for j, _ in case["layout"]}) if case["kind"] == "encs" else 1
+            if case["kind"] == "encs" and case.get("pipe"):
+                nmod = sum(1 for _, enabled, _ in case["pipe"] if enabled)
             ntask = 1
             for n_ in shape:
                 ntask *= n_
+            expected = nmod * (ntask + 1)
+            if trace and all(c.get("data") for c in cells):
+                # with an execution trace: every entry says which instances ran for it; the metadata run works on
+                # the caller's processor (on its unpickled copy when the caller's objects went through pickle)
+                expected = sum(len(c["data"][-1]) for c in cells) + (len(cells[0]["data"][-1]) if sched.get("pre") else nmod)
             res["executions"] = vp.EXEC["n"]
-            cells[0]["mem"] += abs(vp.EXEC["n"] - nmod * (ntask + 1))
+            cells[0]["mem"] += abs(vp.EXEC["n"] - expected)
         if out_dir is not None:
-            res["files"] = read_files(out_dir, case["kind"])
+            res["files"] = read_files(out_dir, case["kind"], len(names) if trace else None)
     except Exception as ex:  # noqa: BLE001
         res = dict(raised=type(ex).__name__, msg=str(ex)[:200])
+    finally:
+        if pool is not None and hasattr(pool, "shutdown"):
+            pool.shutdown()
     return res
 
 
-def read_files(out_dir, kind="enc"):
+def in_process(sched) -> bool:
+    """do the tasks execute in THIS process (so that the probes' execution counter sees them)?"""
+    return not sched or sched.get("scheduler") != "processes" or bool(sched.get("pool"))
+
+
+def sched_config(sched):
+    """dask configuration of a scheduler description.  {"scheduler": "processes", "pool": "sync" | "threads"}: dask's
+    process-pool scheduler (dask.multiprocessing.get: every task is serialised with cloudpickle and unpickled by the
+    worker that executes it) with an IN-PROCESS executor -- exactly what a worker process receives, without
+    starting processes."""
+    cfg, pool = {}, None
+    if sched:
+        cfg["scheduler"] = sched["scheduler"]
+        if sched.get("workers"):
+            cfg["num_workers"] = sched["workers"]
+        if sched.get("pool") == "sync":
+            from dask.local import SynchronousExecutor
+            pool = SynchronousExecutor()
+        elif sched.get("pool") == "threads":
+            from concurrent.futures import ThreadPoolExecutor
+            pool = ThreadPoolExecutor(sched.get("workers") or 2)
+        if pool is not None:
+            cfg["pool"] = pool
+    return cfg, pool
+
+
+def read_files(out_dir, kind="enc", ntrace=None):
     import verif_probes_c07 as vp
 
     def dec(a):
         if kind == "encs":
             out = []
-            for x in a:
+            for x in (a if ntrace is None else a[:ntrace]):
                 d = vp.decode(int(x)) if not np.isnan(x) else None
                 out.append(d[0] if d is not None and len(d) == 1 else -88)
+            if ntrace is not None:
+                tr = decode_trace(a[ntrace]) if a.size == ntrace + 1 else None
+                out.append(tr if tr is not None else [-88])
             return out
         return vp.decode(int(a[0])) if a.size and np.all(a == a[0]) else None
 
@@ -274,11 +342,7 @@ def handle_islands(case):
         return int(round(float(x) * 2 ** 20))
 
     def one(par, sched):
-        cfg = {}
-        if sched:
-            cfg["scheduler"] = sched["scheduler"]
-            if sched.get("workers"):
-                cfg["num_workers"] = sched["workers"]
+        cfg, pool = sched_config(sched)
         try:
             with dask.config.set(**cfg):
                 pg.set_global_rng_seed(seed=case["seed"] % 100000)
@@ -309,6 +373,9 @@ def handle_islands(case):
             return isl
         except Exception as ex:  # noqa: BLE001
             return dict(raised=type(ex).__name__, msg=str(ex)[:200])
+        finally:
+            if pool is not None and hasattr(pool, "shutdown"):
+                pool.shutdown()
 
     out = dict(seq=one(False, dict(scheduler="synchronous")))
     pars = []
@@ -334,12 +401,14 @@ def handle_bfe(case):
     for sched in case["scheds"]:
         try:
             slow = pg.problem(vp.SlowProblem(case.get("scale", 0.0)))
-            cfg = dict(scheduler=sched["scheduler"])
-            if sched.get("workers"):
-                cfg["num_workers"] = sched["workers"]
-            with dask.config.set(**cfg):
-                r = DaskBFE(chunk_size=case["chunk"])(slow, dvs.reshape(-1))
-                r = np.asarray(r.compute() if hasattr(r, "compute") else r)
+            cfg, pool = sched_config(sched)
+            try:
+                with dask.config.set(**cfg):
+                    r = DaskBFE(chunk_size=case["chunk"])(slow, dvs.reshape(-1))
+                    r = np.asarray(r.compute() if hasattr(r, "compute") else r)
+            finally:
+                if pool is not None and hasattr(pool, "shutdown"):
+                    pool.shutdown()
             outs.append(dict(values=[int(v) for v in r.reshape(-1)]))
         except Exception as ex:  # noqa: BLE001
             outs.append(dict(raised=type(ex).__name__, msg=str(ex)[:200]))
